@@ -124,12 +124,110 @@ func ruleFindConfig(c *Ctx, r *Repo, rule string) {
 		}
 		return true
 	})
+	// or: the directories are listed first (nearest first: a loop that appends the current directory and then
+	// moves to its parent, in FindConfig or in a helper it calls) and the list is ranged over, with the loop over
+	// the names inside
+	if !ok {
+		builtNearestFirst := func(g *ast.FuncDecl) bool {
+			found := false
+			ast.Inspect(g.Body, func(n ast.Node) bool {
+				fs, isFor := n.(*ast.ForStmt)
+				if !isFor || found {
+					return true
+				}
+				var dir types.Object
+				if fs.Post != nil {
+					dir = advance(fs.Post)
+				}
+				var appendPos, advPos token.Pos
+				ast.Inspect(fs.Body, func(m ast.Node) bool {
+					if o := advance(m); o != nil && dir == nil {
+						dir, advPos = o, m.Pos()
+					}
+					return true
+				})
+				if dir == nil {
+					return true
+				}
+				ast.Inspect(fs.Body, func(m ast.Node) bool {
+					if call, isCall := m.(*ast.CallExpr); isCall && calleeName(info, call) == "builtin.append" && len(call.Args) == 2 && isObj(info, call.Args[1], dir) {
+						appendPos = call.Pos()
+					}
+					return true
+				})
+				if appendPos.IsValid() && (!advPos.IsValid() || appendPos < advPos) {
+					found = true
+				}
+				return true
+			})
+			return found
+		}
+		ast.Inspect(fd.Body, func(n ast.Node) bool {
+			outer, isRange := n.(*ast.RangeStmt)
+			if !isRange || ok {
+				return true
+			}
+			val, isID := outer.Value.(*ast.Ident)
+			if !isID || !typeIs(info.TypeOf(outer.X), "[]*github.com/chigopher/pathlib.Path") {
+				return true
+			}
+			// where the list comes from
+			listOK := false
+			if id, isList := ast.Unparen(outer.X).(*ast.Ident); isList {
+				ast.Inspect(fd.Body, func(m ast.Node) bool {
+					as, isAs := m.(*ast.AssignStmt)
+					if !isAs || len(as.Lhs) != 1 || len(as.Rhs) != 1 || !isObj(info, as.Lhs[0], info.Uses[id]) {
+						return true
+					}
+					if call, isCall := ast.Unparen(as.Rhs[0]).(*ast.CallExpr); isCall {
+						if h := pkgFuncs(p)[calleeFunc(info, call)]; h != nil && builtNearestFirst(h) {
+							listOK = true
+						}
+					}
+					return true
+				})
+				if !listOK && builtNearestFirst(fd) {
+					listOK = true
+				}
+			}
+			// the loop over the names probes <this directory>.Join(name) and returns
+			probes := false
+			ast.Inspect(outer.Body, func(m ast.Node) bool {
+				switch m.(type) {
+				case *ast.RangeStmt, *ast.ForStmt:
+					hasProbe, returns := false, false
+					ast.Inspect(m, func(k ast.Node) bool {
+						switch y := k.(type) {
+						case *ast.CallExpr:
+							if strings.HasSuffix(calleeName(info, y), "pathlib.Path).Join") {
+								if sel, isSel := y.Fun.(*ast.SelectorExpr); isSel && isObj(info, sel.X, info.Defs[val]) {
+									hasProbe = true
+								}
+							}
+						case *ast.ReturnStmt:
+							returns = true
+						}
+						return true
+					})
+					if hasProbe && returns {
+						probes = true
+					}
+					return false
+				}
+				return true
+			})
+			if listOK && probes {
+				ok = true
+			}
+			return true
+		})
+	}
 	c.Check(ok, rule, "FindConfig|nearest-directory-first", r.Pos(fd.Pos()), "for each directory upwards: try every config file name, return the first that exists", "FindConfig does not try all config file names in the current directory before moving to the parent: a config file in an ancestor directory can win over the one next to the sources")
 }
 
 func checkC18(c *Ctx) {
 	c.Explanation = `R18.1 exclusive create: initRun's only file-system mutator is one OpenFile whose constant flags contain O_CREATE|O_EXCL and not O_TRUNC, on the path built from the --config value (defaulted to .mockery.yml when empty, the defaulting preceding every use of the name); the YAML encoder writes to that handle;
-R18.2 failure is reported: every path of initRun that observes an error ends in os.Exit(<non-zero>);
+R18.2 failure is reported: every path of initRun that observes an error ends in os.Exit(<non-zero>) or hands the error back, and then every caller turns it into a non-zero exit;
 R18.3 same defaults and the named package: defaults come from config.NewDefaultKoanf (the loader's source) unmarshalled into a RootConfig; the packages map is a literal keyed by the raw first argument with config {all: true} (no key-path string is built from the argument);
 R18.4 what init writes the loader reads: for every exported field of Config, RootConfig, PackageConfig, InterfaceConfig and ReplaceType the yaml name equals the koanf name (embedded: inline <-> squash);
 R18.5 the written file is the one a plain run picks up: FindConfig tries all config file names in a directory before moving to its parent;
@@ -343,9 +441,9 @@ var migrateDirect = map[string]string{"all": "all", "_anchors": "_anchors", "con
 var migrateTemplateData = map[string]string{"boilerplate-file": "boilerplate-file", "mock-build-tags": "mock-build-tags", "unroll-variadic": "unroll-variadic"}
 
 func checkC19(c *Ctx) {
-	c.Explanation = `R19.1 key mapping: in migrateConfig every assignment to a v3 Config field or template-data key is matched, by struct tags, against the documented table (all, _anchors, config, dir, exclude -> exclude-subpkg-regex, exclude-regex -> exclude-interface-regex, include-regex -> include-interface-regex, log-level, mockname -> structname, outpkg -> pkgname, recursive; boilerplate-file, mock-build-tags, unroll-variadic -> the same key under template-data); direct fields are copied unconditionally, template-data keys only under 'that v2 field != nil'; no other v3 field or key is written;
+	c.Explanation = `R19.1 key mapping: in migrateConfig every assignment to a v3 Config field or template-data key is matched, by struct tags, against the documented table (all, _anchors, config, dir, exclude -> exclude-subpkg-regex, exclude-regex -> exclude-interface-regex, include-regex -> include-interface-regex, log-level, mockname -> structname, outpkg -> pkgname, recursive; boilerplate-file, mock-build-tags, unroll-variadic -> the same key under template-data); direct fields are copied unconditionally, template-data keys only under 'that v2 field != nil' (helpers handed the v3 level are followed, an early return is a guard on what follows, a literal table of rows applied in a loop is unrolled); no other v3 field or key is written;
 R19.2 level and name preservation: run migrates (root, root), each package's config into Packages[<same name>].Config, each interface's config into Interfaces[<same name>].Config, and each configs entry into a freshly appended entry, in order;
-R19.3 input untouched, output replaced: the only mutator reachable in run is the OpenFile of --outfile with O_CREATE and O_TRUNC; the v2 file is opened O_RDONLY;
+R19.3 input untouched, output replaced: the only mutator reachable in run (private helpers that reach an effect site followed; flags evaluated along the path) is the OpenFile of --outfile with O_CREATE and O_TRUNC; the v2 file is opened O_RDONLY;
 R19.4 strict decoding: KnownFields(true) is set on the decoder before Decode;
 R19.5 no nil dereference: every '*v2Config.X' is evaluated only where 'v2Config.X != nil' is established (enclosing if, or the left operand of the same && / ||); a nil section returns early;
 R19.6 what migrate writes is loadable: yaml and koanf names agree for every config field, every map field has a non-nil default, and every template-data key migrate writes is a property of the schema of the template it selects (testify).`
